@@ -27,9 +27,13 @@ package bloomsearch
 // particular no extern is ever assumed to succeed.
 // ---------------------------------------------------------------------------
 
+// wraps(e, x): error e was built from operand x (fmt.Errorf with %w / %v);
+// uninterpreted, only ever established by fmt.Errorf's assumed contract.
+//@ specfun wraps(e iface, x iface) bool
 //@ extern fmt.Errorf
 //@ pure
 //@ ensures result != nil
+//@ ensures forall k :: 0 <= k && k < len(a) ==> wraps(result, a[k])
 
 //@ extern errors.New
 //@ pure
@@ -64,9 +68,12 @@ package bloomsearch
 //@ extern context.Context.Done
 //@ pure
 //@ ensures result == doneChan(recv)
+// A context's error is fixed once set: every non-nil Err() returns the same value.
+//@ specfun ctxErrVal(c iface) iface
 //@ extern context.Context.Err
 //@ pure
 //@ ensures ghost.recvs[doneChan(recv)] > 0 ==> result != nil
+//@ ensures result == nil || result == ctxErrVal(recv)
 
 // ---------------------------------------------------------------------------
 // Ghost state. Only contracts update it: extern contracts of the store
@@ -458,7 +465,7 @@ package bloomsearch
 //@ modifies *r, ghost.mutexLocks, ghost.mutexUnlocks, ghost.recvs
 //@ ensures !result && r.iterDone && r.finalized
 //@ ensures old(r.finalized) ==> r.err == old(r.err)
-//@ ensures !old(r.finalized) && old(ghost.recvs[doneChan(r.callerCtx)]) > 0 ==> r.err != nil
+//@ ensures !old(r.finalized) && old(ghost.recvs[doneChan(r.callerCtx)]) > 0 ==> r.err != nil && wraps(r.err, ctxErrVal(r.callerCtx))
 
 // Next: once iteration is done it returns false and changes nothing; a false
 // return always leaves a terminal state; a decided terminal state is never
@@ -485,7 +492,7 @@ package bloomsearch
 // querySlot: held <=> this slot holds exactly one semaphore token. Acquiring a
 // held slot and releasing an unheld one are no-ops.
 //@ func (*querySlot).acquire
-//@ props C22
+//@ props C22 C21
 //@ requires s != nil
 //@ modifies s.held, ghost.sends, ghost.nilsends, ghost.recvs
 //@ ensures result == s.held
@@ -498,7 +505,7 @@ package bloomsearch
 //@ ensures forall c :: c != doneChan(s.ctx) ==> recvd(c) == old(recvd(c))
 
 //@ func (*querySlot).release
-//@ props C22
+//@ props C22 C21
 //@ requires s != nil
 //@ modifies s.held, ghost.recvs
 //@ ensures !s.held
@@ -559,6 +566,151 @@ package bloomsearch
 //@ ensures result.BlocksSkipped + result.BlocksProcessed == len(r.blockStats)
 //@ ensures len(result.BlockStats) == len(r.blockStats)
 //@ ensures len(r.blockStats) > 0 ==> arr(result.BlockStats) != arr(r.blockStats)
+
+// ---------------------------------------------------------------------------
+// query_handles.go, query_exec.go — handles (C21), slots (C22), stats (C23),
+// pruning (C24), verify-before-deliver (C02), row independence (C03)
+// ---------------------------------------------------------------------------
+
+// what the handle pool's methods may write: the pool, its per-file entries, the
+// idle handle lists and the files map — nothing of the query's other state
+//@ modset pool = heap(fileHandlePool), heap(pooledFileHandles), heap(io.ReadSeekCloser), map(p.files)
+//@ ghostvar hAcquired int     // handles lent by fileHandlePool.acquire (successful calls)
+//@ ghostvar hPut int           // handles handed back with put
+//@ ghostvar hDiscarded int     // handles handed back with discard
+//@ ghostvar handleCloses int   // Close calls on a DataStore read handle
+//@ ghostvar retains int        // fileHandlePool.retain calls
+//@ ghostvar releases int       // fileHandlePool.release calls
+//@ ghostvar unsafeViews int    // unsafeString calls (zero-copy views of a byte buffer)
+//@ ghostvar matchedOK bool     // the last matchRowBytes call returned true and no row was added since
+//@ ghostvar rowsAdded int      // rowBatcher.add calls
+
+// "some Err() call on this context returned non-nil" — an uninterpreted,
+// state-independent predicate constrained only by what Err returns.
+//@ specfun ctxDone(c iface) bool
+
+//@ extern io.ReadSeekCloser.Close
+//@ modifies ghost.handleCloses
+//@ ensures ghost.handleCloses == old(ghost.handleCloses) + 1
+
+//@ func (*fileHandlePool).retain
+//@ props C21
+//@ requires p != nil
+//@ entry ghost.retains = ghost.retains + 1
+//@ modifies $pool, ghost.retains, ghost.mutexLocks, ghost.mutexUnlocks
+//@ ensures ghost.retains == old(ghost.retains) + 1
+//@ ensures ghost.mutexLocks - old(ghost.mutexLocks) == ghost.mutexUnlocks - old(ghost.mutexUnlocks)
+
+//@ func closeHandles
+//@ props C21
+//@ modifies ghost.handleCloses
+//@ loop 0 invariant -1 <= $index && $index < len(handles) && ghost.handleCloses == old(ghost.handleCloses) + $index + 1
+//@ ensures ghost.handleCloses == old(ghost.handleCloses) + len(handles)
+
+//@ func (*fileHandlePool).release
+//@ props C21
+//@ requires p != nil
+//@ entry ghost.releases = ghost.releases + 1
+//@ modifies $pool, ghost.releases, ghost.handleCloses, ghost.mutexLocks, ghost.mutexUnlocks
+//@ ensures ghost.releases == old(ghost.releases) + 1
+//@ ensures ghost.mutexLocks == old(ghost.mutexLocks) + 1 && ghost.mutexUnlocks == old(ghost.mutexUnlocks) + 1
+
+// acquire lends an idle handle or opens one; it never closes anything and never
+// performs I/O under the pool lock.
+//@ func (*fileHandlePool).acquire
+//@ props C21 C24
+//@ requires p != nil
+//@ exit ghost.hAcquired = result1 == nil ? ghost.hAcquired + 1 : ghost.hAcquired
+//@ modifies $pool, ghost.hAcquired, ghost.opens, ghost.mutexLocks, ghost.mutexUnlocks
+//@ at call OpenFile#1 assert [C21] ghost.mutexLocks - old(ghost.mutexLocks) == ghost.mutexUnlocks - old(ghost.mutexUnlocks)
+//@ ensures ghost.hAcquired == old(ghost.hAcquired) + (result1 == nil ? 1 : 0)
+//@ ensures ghost.opens <= old(ghost.opens) + 1
+//@ ensures ghost.mutexLocks == old(ghost.mutexLocks) + 1 && ghost.mutexUnlocks == old(ghost.mutexUnlocks) + 1
+
+// put stores a healthy handle for reuse, or closes it when nobody can ask for it
+// anymore; exactly one of the two, and never while holding the lock.
+//@ func (*fileHandlePool).put
+//@ props C21
+//@ requires p != nil
+//@ entry ghost.hPut = ghost.hPut + 1
+//@ modifies $pool, ghost.hPut, ghost.handleCloses, ghost.mutexLocks, ghost.mutexUnlocks
+//@ at call Close#1 assert [C21] ghost.mutexLocks - old(ghost.mutexLocks) == ghost.mutexUnlocks - old(ghost.mutexUnlocks)
+//@ ensures ghost.hPut == old(ghost.hPut) + 1
+//@ ensures ghost.handleCloses <= old(ghost.handleCloses) + 1
+//@ ensures old(p.closed) ==> ghost.handleCloses == old(ghost.handleCloses) + 1
+//@ ensures ghost.mutexLocks == old(ghost.mutexLocks) + 1 && ghost.mutexUnlocks == old(ghost.mutexUnlocks) + 1
+
+//@ func (*fileHandlePool).discard
+//@ props C21
+//@ entry ghost.hDiscarded = ghost.hDiscarded + 1
+//@ modifies ghost.hDiscarded, ghost.handleCloses
+//@ ensures ghost.hDiscarded == old(ghost.hDiscarded) + 1 && ghost.handleCloses == old(ghost.handleCloses) + 1
+
+//@ func (*fileHandlePool).closeAll
+//@ props C21
+//@ requires p != nil
+//@ modifies $pool, ghost.handleCloses, ghost.mutexLocks, ghost.mutexUnlocks
+//@ loop 0 invariant ghost.mutexLocks == old(ghost.mutexLocks) + 1 && ghost.mutexUnlocks == old(ghost.mutexUnlocks) + 1
+//@ ensures ghost.mutexLocks == old(ghost.mutexLocks) + 1 && ghost.mutexUnlocks == old(ghost.mutexUnlocks) + 1
+
+// filtersFor keeps the cursor invariant and reports a failed chunk read as such.
+//@ func (*blockFilterCursor).filtersFor
+//@ props C19 C24 C01 C03
+//@ requires c != nil && 0 <= i && i < len(c.blocks) && cursorOK(c)
+//@ modifies c.buf, c.chunkStart, c.chunkShare, heap(byte), heap(bloom.BloomFilter), heap(bitset.BitSet), heap(uint64), ghost.bufOwned, scanBufferPools
+//@ ensures cursorOK(c)
+//@ ensures readFailed ==> err != nil
+//@ ensures err == nil ==> filters != nil
+
+// unsafeString hands out a zero-copy view; materializeRow must not use one:
+// delivered rows are parsed from an independent copy of the row bytes.
+//@ func unsafeString
+//@ props C03
+//@ entry ghost.unsafeViews = ghost.unsafeViews + 1
+//@ modifies ghost.unsafeViews
+//@ ensures ghost.unsafeViews == old(ghost.unsafeViews) + 1
+
+//@ func materializeRow
+//@ props C03 C02
+//@ modifies nothing
+//@ ensures [C03] ghost.unsafeViews == old(ghost.unsafeViews)
+
+// matchRowBytes walks the row through gjson and the tokenizer; its body is
+// outside the generator's reach, so this contract is an assumption: it writes
+// only its scratch state and records its verdict.
+//@ func (*compiledRowMatcher).matchRowBytes
+//@ props C02
+//@ assumed gjson/tokenizer-bound body; the matcher writes only its per-worker scratch (DESIGN Appendix A)
+//@ modifies *scratch, heap(bool), heap(string), heap([]string), ghost.matchedOK, ghost.unsafeViews
+//@ ensures ghost.matchedOK == result
+
+// add may only be called for the row that was just verified by matchRowBytes.
+//@ func (*rowBatcher).add
+//@ props C02
+//@ requires b != nil && b.results != nil && b.slot != nil
+//@ requires [C02] ghost.matchedOK
+//@ entry ghost.matchedOK = false
+//@ entry ghost.rowsAdded = ghost.rowsAdded + 1
+//@ modifies b.batch, *b.slot, heap(map[string]any), ghost.matchedOK, ghost.rowsAdded, ghost.delivers, ghost.sends, ghost.nilsends, ghost.recvs
+//@ ensures ghost.rowsAdded == old(ghost.rowsAdded) + 1 && !ghost.matchedOK
+
+// processDataBlock: exactly one stats entry on every exit, never a "skipped"
+// one; the handle it acquires is put or discarded exactly once, and put only
+// after a successful read; reads happen while the worker's slot is held; a row
+// is batched only after matchRowBytes accepted it.
+//@ func (*BloomSearchEngine).processDataBlock
+//@ props C02 C21 C22 C23
+//@ requires b != nil && r != nil && slot != nil && handles != nil && rowMatcher != nil
+//@ requires [C22] slot.held
+//@ modifies heaps, ghost.statsRecorded, ghost.statsSkipped, ghost.statsNonZeroSkipped, ghost.errsRecorded, ghost.hAcquired, ghost.hPut, ghost.hDiscarded, ghost.handleCloses, ghost.opens, ghost.matchedOK, ghost.rowsAdded, ghost.unsafeViews, ghost.delivers, ghost.bufOwned, ghost.mutexLocks, ghost.mutexUnlocks, ghost.sends, ghost.nilsends, ghost.recvs
+//@ loop 0 invariant ghost.statsRecorded == old(ghost.statsRecorded) && ghost.statsSkipped == old(ghost.statsSkipped) && ghost.hAcquired == old(ghost.hAcquired) + 1 && ghost.hPut == old(ghost.hPut) + 1 && ghost.hDiscarded == old(ghost.hDiscarded)
+//@ loop 0 invariant scanner != nil && 0 <= scanner.pos && scanner.pos <= len(scanner.data) && batcher.results == r && batcher.slot == slot && r != nil && slot != nil
+//@ at call (*fileHandlePool).acquire#1 assert [C22] slot.held
+//@ at call readPooledBlockRowData#1 assert [C22] slot.held
+//@ at call (*fileHandlePool).put#1 assert [C21] err == nil
+//@ ensures [C23] ghost.statsRecorded == old(ghost.statsRecorded) + 1 && ghost.statsSkipped == old(ghost.statsSkipped)
+//@ ensures [C21] ghost.hAcquired - old(ghost.hAcquired) == (ghost.hPut - old(ghost.hPut)) + (ghost.hDiscarded - old(ghost.hDiscarded))
+//@ ensures [C21] ghost.hAcquired <= old(ghost.hAcquired) + 1
 
 // ---------------------------------------------------------------------------
 // merge.go — commit protocol (C13)
